@@ -19,48 +19,3 @@ func (fe *Element) VerifSetRawLimbs(l [4]uint64) *Element {
 	fe.m = fiat.MontgomeryDomainFieldElement(l)
 	return fe
 }
-
-// VerifPow3mod4 exposes pow3mod4.
-func (fe *Element) VerifPow3mod4(x *Element) *Element {
-	return fe.pow3mod4(x)
-}
-
-// VerifSetShortBytes exposes setShortBytes.
-func (fe *Element) VerifSetShortBytes(src []byte) *Element {
-	return fe.setShortBytes(src)
-}
-
-// VerifReduceSaturated exposes reduceSaturated.
-func VerifReduceSaturated(dst, src *[4]uint64) uint64 {
-	return reduceSaturated(dst, src)
-}
-
-// VerifFiat exposes the raw limb-level fiat entry points of the field.
-// Returns false if op is unknown.
-func VerifFiat(op string, out, a, b *[4]uint64, c uint64) bool {
-	switch op {
-	case "mul":
-		fiat.Mul((*fiat.MontgomeryDomainFieldElement)(out), (*fiat.MontgomeryDomainFieldElement)(a), (*fiat.MontgomeryDomainFieldElement)(b))
-	case "square":
-		fiat.Square((*fiat.MontgomeryDomainFieldElement)(out), (*fiat.MontgomeryDomainFieldElement)(a))
-	case "add":
-		fiat.Add((*fiat.MontgomeryDomainFieldElement)(out), (*fiat.MontgomeryDomainFieldElement)(a), (*fiat.MontgomeryDomainFieldElement)(b))
-	case "sub":
-		fiat.Sub((*fiat.MontgomeryDomainFieldElement)(out), (*fiat.MontgomeryDomainFieldElement)(a), (*fiat.MontgomeryDomainFieldElement)(b))
-	case "opp":
-		fiat.Opp((*fiat.MontgomeryDomainFieldElement)(out), (*fiat.MontgomeryDomainFieldElement)(a))
-	case "tomont":
-		fiat.ToMontgomery((*fiat.MontgomeryDomainFieldElement)(out), (*fiat.NonMontgomeryDomainFieldElement)(a))
-	case "frommont":
-		fiat.FromMontgomery((*fiat.NonMontgomeryDomainFieldElement)(out), (*fiat.MontgomeryDomainFieldElement)(a))
-	case "selectznz":
-		fiat.Selectznz(out, fiat.Uint64ToUint1(c), a, b)
-	case "nonzero":
-		fiat.Nonzero(&out[0], a)
-	case "setone":
-		fiat.SetOne((*fiat.MontgomeryDomainFieldElement)(out))
-	default:
-		return false
-	}
-	return true
-}
